@@ -413,7 +413,7 @@ def str2uuid(value: Any) -> UUID | Any:
     if isinstance(value, bytes):
         value = value.decode("utf-8")
 
-    if is_uuid(value):
+    if isinstance(value, (str, UUID)) and is_uuid(value):
         # TODO insert validation
         return UUID(str(value))
     return value
